@@ -11,6 +11,11 @@ fn target(a: i32) -> i32 {
     std::hint::black_box(a) + 1000
 }
 
+#[inline(never)]
+fn target2(a: i32) -> i32 {
+    std::hint::black_box(a) + 2000
+}
+
 macro_rules! sites {
     ($($n:literal)*) => {
         /// one `fake!` call site per N: the same line of source (hence the same static counter)
@@ -28,8 +33,12 @@ sites!(0 1 2 3 4 5 6 7 8 9 10 11 12 13 14 15 16 17 18 19 20 21 22 23 24 25 26 27
        33 34 35 36 37 38 39 40 41 42 43 44 45 46 47 48 49 50 51 52 53 54 55 56 57 58 59 60 61 62 63 64);
 
 fn one_call(matching: bool) -> char {
+    one_call_on(0, matching)
+}
+
+fn one_call_on(which: usize, matching: bool) -> char {
     let arg = if matching { 7 } else { 8 };
-    match quiet_catch(move || target(arg)) {
+    match quiet_catch(move || if which % 2 == 0 { target(arg) } else { target2(arg) }) {
         Ok(42) => 'o',
         Ok(_) => '?',
         Err(m) => {
@@ -101,6 +110,34 @@ fn lifetime_ending(n: usize, scripts: &[Vec<bool>], by_panic: bool) -> (Vec<Stri
     (outs, ex)
 }
 
+/// one lifetime in which the call site N is installed several times, on `target` and `target2`
+/// alternately, with the given calls after each installation (single thread)
+fn lifetime_multi(n: usize, installs: &[Vec<bool>], by_panic: bool) -> (Vec<String>, String) {
+    let mut inj = InjectorPP::new();
+    let mut outs = Vec::new();
+    for (i, calls) in installs.iter().enumerate() {
+        if i % 2 == 0 {
+            inj.when_called(shadow::func!(fn (target)(i32) -> i32)).will_execute(mk(n));
+        } else {
+            inj.when_called(shadow::func!(fn (target2)(i32) -> i32)).will_execute(mk(n));
+        }
+        outs.push(calls.iter().map(|&m| one_call_on(i, m)).collect::<String>());
+    }
+    let ex = if by_panic {
+        let r = quiet_catch(std::panic::AssertUnwindSafe(move || {
+            let _keep = inj;
+            panic!("user panic at the end of the lifetime");
+        }));
+        match r {
+            Err(m) if m.contains("user panic at the end of the lifetime") => "ok".to_string(),
+            other => exit_class(other.map(|_| ())),
+        }
+    } else {
+        exit_class(quiet_catch(std::panic::AssertUnwindSafe(move || drop(inj))))
+    };
+    (outs, ex)
+}
+
 fn script_str(s: &[bool]) -> String {
     if s.is_empty() {
         return "-".into();
@@ -156,26 +193,34 @@ pub fn run(a: &Args, out: &mut impl Write) {
         let over: usize = outs.iter().map(|o| o.matches('v').count()).sum();
         writeln!(out, "cnthammer {} 16 {} | admitted={} over={} exit={}", n, 16 * per, admitted, over, ex).unwrap();
     }
-    // ---- C07: consecutive lifetimes evaluating the same call site
+    // ---- C07: consecutive lifetimes evaluating the same call site; in a third of them the site
+    // is installed twice or three times within the lifetime (a helper used for several functions)
     for _ in 0..a.n {
         let n = r.below(nmax.min(8) as u64 + 1) as usize;
         let l = r.range(2, if a.tier_thorough { 50 } else { 8 }) as usize;
         let mut parts = Vec::new();
         for _ in 0..l {
-            let k = match r.below(4) {
-                0 => n,
-                1 => r.below(n as u64 + 3) as usize,
-                2 => n.saturating_sub(1),
-                _ => n,
-            };
-            let mut s: Vec<bool> = vec![true; k];
-            if r.chance(1, 4) {
-                let p = r.below(s.len() as u64 + 1) as usize;
-                s.insert(p, false);
+            let ninst = if r.chance(1, 3) { r.range(2, 3) as usize } else { 1 };
+            let mut installs: Vec<Vec<bool>> = Vec::new();
+            for _ in 0..ninst {
+                let k = match r.below(4) {
+                    0 => n,
+                    1 => r.below(n as u64 + 3) as usize,
+                    2 => n.saturating_sub(1),
+                    _ => n,
+                };
+                let mut s: Vec<bool> = vec![true; k];
+                if r.chance(1, 4) {
+                    let p = r.below(s.len() as u64 + 1) as usize;
+                    s.insert(p, false);
+                }
+                installs.push(s);
             }
             let by_panic = r.chance(1, 4);
-            let (outs, ex) = lifetime_ending(n, &[s.clone()], by_panic);
-            parts.push(format!("{}{}:{}:{}", script_str(&s), if by_panic { "!" } else { "" }, if outs[0].is_empty() { "-".to_string() } else { outs[0].clone() }, ex.replace(':', ",")));
+            let (outs, ex) = lifetime_multi(n, &installs, by_panic);
+            let sc: Vec<String> = installs.iter().map(|s| script_str(s)).collect();
+            let os: Vec<String> = outs.iter().map(|o| if o.is_empty() { "-".to_string() } else { o.clone() }).collect();
+            parts.push(format!("{}{}:{}:{}", sc.join("+"), if by_panic { "!" } else { "" }, os.join("+"), ex.replace(':', ",")));
         }
         writeln!(out, "life {} | {}", n, parts.join(" ")).unwrap();
     }
